@@ -10,6 +10,7 @@ ASCII_CLASSES = {
     "ASCII_DIGIT", "ASCII_NONZERO_DIGIT", "ASCII_BIN_DIGIT", "ASCII_OCT_DIGIT", "ASCII_HEX_DIGIT", "ASCII_ALPHA_LOWER",
     "ASCII_ALPHA_UPPER", "ASCII_ALPHA", "ASCII_ALPHANUMERIC", "ASCII",
 }
+BUILTINS_AS_RULES = False  # export NEWLINE / ASCII_* as references to silent rules (see builtin_rule_defs) instead of terminals
 CHARSET: set[int] = set()  # set by the caller before exporting grammars that use Unicode property rules
 
 UNARY = {"opt", "star", "plus", "exact", "min", "max", "minmax", "and", "not", "push", "tag", "grp"}
@@ -188,6 +189,8 @@ def export_expr(x, pest_mod):  # noqa: PLR0911, PLR0912
     if isinstance(x, EOI):
         return {"k": "eoi"}
     if isinstance(x, BuiltInRule):
+        if BUILTINS_AS_RULES and (x.name == "NEWLINE" or x.name in ASCII_CLASSES):
+            return {"k": "ref", "n": x.name}  # the silent rule it is at run time (PestVM: rule stack depth, inner checkpoints)
         if x.name == "NEWLINE":
             return {"k": "alt", "es": [{"k": "str", "s": [10]}, {"k": "str", "s": [13, 10]}, {"k": "str", "s": [13]}]}
         if x.name in ASCII_CLASSES:
@@ -239,6 +242,17 @@ def export_expr(x, pest_mod):  # noqa: PLR0911, PLR0912
     if isinstance(x, T.Drop):
         return wrap(x, {"k": "drop"})
     return {"k": "?" + type(x).__name__}
+
+
+def builtin_rule_defs(pest_mod) -> dict:
+    """NEWLINE and the ASCII_* rules as the silent rules over ranges / choices of ranges that they are in the library."""
+    from pest.grammar.rules.ascii import ASCII_RULE_MAP  # noqa: PLC0415
+
+    out = {"NEWLINE": {"mod": "_", "body": {"k": "alt", "es": [{"k": "str", "s": [10]}, {"k": "str", "s": [13, 10]}, {"k": "str", "s": [13]}]}}}
+    for name, rs in ASCII_RULE_MAP.items():
+        rng = lambda r: {"k": "range", "lo": ord(r[0]), "hi": ord(r[1])}  # noqa: E731
+        out[name] = {"mod": "_", "body": rng(rs) if isinstance(rs, tuple) else {"k": "alt", "es": [rng(r) for r in rs]}}
+    return out
 
 
 def export_rules(parser, pest_mod) -> dict:
